@@ -114,7 +114,7 @@ def _history(draw):
                                patterns=("interleaved", "random", "dense") if g == "NP2.4" else ("dense", "random")))
         spec["n_acq"] = spec["n"]
         spec["nsync"] = 1
-        spec["fs"] = 30000.0
+        pass  # the calibrated sampling rate drawn by st_spec is kept (30000 or a measured value next to it)
     runs = []
     for _ in range(draw(st.integers(1, 6))):
         runs.append(_run(overwrite=draw(st.booleans()), post_check=draw(st.booleans()), compress=draw(st.booleans()),
